@@ -150,6 +150,14 @@ def header_references(ctx, vh, rng):
     acts = ["separator: true; visible: srcB.checked", "separator: true; text: srcS.text", "separator: true; enabled: srcB.checked; toolTip: srcS.text", "separator: srcB.checked",
             "separator: true; visible: false", "separator: true", "separator: true; onTriggered: srcS.clear()", "separator: false; text: srcS.text", "text: srcS.text; checkable: true",
             "separator: true; checkable: true; visible: srcB.checked"]
+    # objects that carry an id and are used from elsewhere, declared below a parent that holds no children (a spacer, an action): whatever is done with the
+    # document, a name that is used is a name that is declared
+    for inner in ("QVBoxLayout { QSpacerItem { QLineEdit { id: nameEdit; onReturnPressed: srcS.clear() } } QLabel { buddy: nameEdit; text: nameEdit.text } }",
+                  "QVBoxLayout { QSpacerItem { QLineEdit { id: nameEdit } } QLabel { text: nameEdit.text } }",
+                  "QAction { id: holder; QLineEdit { id: nameEdit } }\n  QLabel { text: nameEdit.text }",
+                  "QVBoxLayout { QSpacerItem { QCheckBox { id: inner } } QLabel { enabled: inner.checked } }"):
+        docs.append("import qmluic.QtWidgets\nQWidget {\n  QLineEdit { id: srcS }\n  %s\n}\n" % inner)
+        ctx.dist("header-references-below-leaf-kinds")
     for a in acts:
         for lst in (False, True):
             docs.append("import qmluic.QtWidgets\nQMainWindow {\n  QLineEdit { id: srcS }\n  QCheckBox { id: srcB }\n  QAction { id: other; text: \"o\" }\n  QAction {\n    id: sep\n    %s\n  }\n"
